@@ -138,6 +138,11 @@ fn main() {
                         dist("zst_counted");
                         do_case(vec![op, form, 6, n as i128, pan, 0, 0, mode]);
                     }
+                    // Clone of elements WITHOUT drop glue whose hand-written clone is observable (it has no panic switch)
+                    if op == 4 && pan == -1 {
+                        dist("clone_no_drop_glue");
+                        do_case(vec![op, form, 4, n as i128, pan, 0, 0, mode]);
+                    }
                     // map of drop-tracked inputs to plain outputs (an output type without drop glue)
                     if op == 0 {
                         dist("map_to_plain");
